@@ -4,7 +4,7 @@ CONSTANTS
   Kinds = {"ready", "io"}
   TokModes = {"no", "slow"}
   MaxPW = 1
-  MaxFill = 1
+  MaxFill = 0
   AllowShut = FALSE
   Eager = FALSE
   Strict = FALSE
